@@ -16,6 +16,7 @@ import (
 	"os"
 	"path/filepath"
 	"runtime"
+	"sort"
 	"sync"
 	"time"
 
@@ -190,6 +191,22 @@ func (r *mvRun) exec(op []interface{}) bool {
 			return false
 		}
 		r.emit(tr.Ev{"e": "CloseSnap", "sn": sn, "picked": picked}, true)
+	case "CloseAll":
+		// every handle the driver holds (iterators keep theirs): after this only iterators pin garbage
+		sns := []int{}
+		for sn, n := range r.handles {
+			if n > 0 {
+				sns = append(sns, sn)
+			}
+		}
+		sort.Ints(sns)
+		for _, sn := range sns {
+			for n := r.handles[sn]; n > 0; n-- {
+				if !r.exec([]interface{}{"CloseSnap", sn}) {
+					return false
+				}
+			}
+		}
 	case "GC":
 		d.GC()
 		picked, err := d.Picked()
@@ -674,6 +691,16 @@ func mvRandom(t *tr.W, g *mvGen, length int) string {
 				break
 			}
 			var busy []interface{}
+			if rnd.Intn(3) == 0 {
+				// sweep: most of the store is deleted, every snapshot closed and the garbage collected while the scan
+				// stands on its first item (with delta interleaving the items must then come from the delta files)
+				for kk := 1; kk <= nk; kk++ {
+					if rnd.Intn(4) != 0 {
+						busy = append(busy, []interface{}{"Delete", w, kk})
+					}
+				}
+				busy = append(busy, []interface{}{"NewSnapshot"}, []interface{}{"CloseAll"})
+			}
 			for j := rnd.Intn(6); j > 0; j-- {
 				kk := 1 + rnd.Intn(nk)
 				switch rnd.Intn(5) {
